@@ -103,12 +103,16 @@ def flattened_roles(ent: dict) -> list[dict]:
 def gen_parameters(rng: random.Random) -> dict:
     """path -> dated list or scale.  `late.*` is undefined before 2018 (F4)."""
 
+    def value():
+        # (a rate of zero is a value like any other)
+        return 0.0 if chance(rng, 0.15) else round(rng.uniform(0, 3), 2)
+
     def history(first="1900-01-01"):
-        out = [[first, round(rng.uniform(0, 3), 2)]]
+        out = [[first, value()]]
         for y in YEARS:
             if chance(rng, 0.4):
                 m = rng.randint(1, 12)
-                out.append([f"{y}-{m:02d}-01", round(rng.uniform(0, 3), 2)])
+                out.append([f"{y}-{m:02d}-01", value()])
         return out
 
     params = {
@@ -256,7 +260,11 @@ class ExprGen:
     def param(self):
         if self.var["unit"] == "eternity":
             return self.const()
-        kind = weighted(self.rng, [("leaf", 6), ("scale", 2)])
+        kind = weighted(self.rng, [("leaf", 6), ("scale", 2), ("pin", 1.2)])
+        if kind == "pin":
+            # "is there such a parameter at this date?" - the idiom for parameters that start
+            # (or stop) at some date, whatever their value then
+            return ["pin", *pick(self.rng, [("", "p0"), ("g", "p1"), ("g.h", "p2"), ("late", "p3"), ("g", "nope")])]
         if kind == "leaf":
             return ["p", pick(self.rng, ["p0", "g.p1", "g.h.p2"])]
         return ["sc", "sc.s0", self.expr(1)]
@@ -324,6 +332,10 @@ def gen_variable_shell(rng, i, ents, enums, *, types=TYPES, units=None, input_on
             var["default"] = "dflt"[: var.get("max_length", 4)]
     elif typ == "date" and chance(rng, 0.3):
         var["default"] = "2001-02-03"
+    if typ == "date" and chance(rng, 0.3):
+        var["date_res"] = pick(rng, ["M", "M", "Y"])
+    if chance(rng, 0.15):
+        var["unit_as_text"] = True
     if unit in ("month", "year", "day") and typ in ("float", "int") and chance(rng, 0.3):
         # int variables truncate non-divisible amounts (D7): only C16 generates
         # the divide rule for them, with divisible amounts
@@ -504,6 +516,18 @@ def gen_world(
                 # a rule that reads itself for the very period it is computed for: whenever
                 # that formula is the one in force, a request for it cannot be answered
                 world["self_cycle"] = [var["name"], s]
+        months = [i for i in formula_vars if world["variables"][i]["unit"] == "month" and world["variables"][i]["type"] in ("float", "int")]
+        if months and chance(rng, 0.4):
+            # a circle over two periods: in month m the rule looks at the month after, in every
+            # other month at the month before - asked for month m + 1 it needs month m, which
+            # needs month m + 1 again (an outer calculation in progress, not the innermost)
+            i = pick(rng, months)
+            var = world["variables"][i]
+            s = sorted(var["formulas"])[0]
+            m = pick(rng, [1, 2, 3])
+            var["formulas"][s] = ["b", "+", var["formulas"][s],
+                                  ["im", m, ["rd", var["name"], ["off", 1, "month"], None, None], ["rd", var["name"], "last_month", None, None]]]
+            world["two_cycle"] = [var["name"], s, m]
     return world
 
 
